@@ -407,6 +407,12 @@ namespace OP2Utility::Archive
 				break;
 			}
 		}
+
+		// Each valid entry is named by the string table entry of the same index
+		if (packedFileCount > m_StringTable.size()) {
+			throw std::runtime_error("The index table lists more files than the string table names in volume " + m_ArchiveFilename);
+		}
+
 		m_Count = packedFileCount;
 	}
 
